@@ -414,14 +414,7 @@ func main() {
 	}
 	for pi := 0; pi < progs; pi++ {
 		cfg := gen.Config{MaxFuncs: 1 + r.Intn(6), MaxDepth: 2 + r.Intn(4), MaxStmts: 1 + r.Intn(6), Floats: r.Intn(4) > 0, Memory: true, Imports: r.Intn(3), Bulk: r.Intn(2) == 0}
-		cfg.TailCalls = r.Intn(3) == 0
-		cfg.SIMD = r.Intn(4) == 0        // outside the Lean fragment: engines compared with each other only
-		cfg.BlockParams = r.Intn(4) == 0 // likewise
-		cfg.Atomics = r.Intn(4) == 0     // likewise (threads feature, single-threaded)
-		if r.Intn(4) == 0 {              // register-pressure / ABI-cliff profile: many params, results and locals
-			cfg.MaxParams, cfg.MaxResults, cfg.MaxLocals = 6+r.Intn(10), 1+r.Intn(5), 8+r.Intn(16)
-			cfg.MaxDepth = 2 + r.Intn(2)
-		}
+		cfg = gen.RandomProfile(r, cfg) // SIMD, block parameters and atomics are outside the Lean fragment: engines compared with each other only
 		if os.Getenv("HC01_V") != "" {
 			fmt.Fprintf(os.Stderr, "prog %d %+v\n", pi, cfg)
 		}
